@@ -66,17 +66,29 @@ def _callsig(n):
     return None
 
 
+def _collapses(n):
+    """Signature of the single combined call an operand turns into: a combinable call, or a (parenthesised) `or`
+    group all of whose members collapse to the same call."""
+    import ast
+
+    if isinstance(n, ast.BoolOp) and isinstance(n.op, ast.Or):
+        sigs = {_collapses(v) for v in n.values}
+        return sigs.pop() if len(sigs) == 1 else None
+    return _callsig(n)
+
+
 def and_fold_shape(expr):
-    """True when `expr` holds `CALL or CALL and ...` / `... and CALL or CALL` with the two calls combinable: the
-    shape whose regrouping the repository's own tests pin (known finding C08-K1)."""
+    """True when `expr` holds `CALL or CALL and ...` / `... and CALL or CALL` with the two calls combinable (a call
+    may also be an `or` group that collapses into one call first): the shape whose regrouping the repository's own
+    tests pin (known finding C08-K1)."""
     import ast
 
     for n in ast.walk(ast.parse(expr, mode="eval")):
         if isinstance(n, ast.BoolOp) and isinstance(n.op, ast.Or):
             for a, b in zip(n.values, n.values[1:]):
-                if isinstance(b, ast.BoolOp) and isinstance(b.op, ast.And) and _callsig(a) and _callsig(a) == _callsig(b.values[0]):
+                if isinstance(b, ast.BoolOp) and isinstance(b.op, ast.And) and _collapses(a) and _collapses(a) == _collapses(b.values[0]):
                     return True
-                if isinstance(a, ast.BoolOp) and isinstance(a.op, ast.And) and _callsig(b) and _callsig(b) == _callsig(a.values[-1]):
+                if isinstance(a, ast.BoolOp) and isinstance(a.op, ast.And) and _collapses(b) and _collapses(b) == _collapses(a.values[-1]):
                     return True
     return False
 
